@@ -157,6 +157,14 @@ CLAIMED["C15"] = ("Partial proof of the certificate signature gates: CheckSignat
  "Trusted: rsa/ecdsa/ed25519/sm2 verification primitives, crypto.Hash, isRSAPSS, the signature algorithm table (its contents are not known to the verifier), isValid, alreadyInChain, pool constraint callbacks.",
  "DESIGN.md §0.2, §4 C15")
 
+CLAIMED["C02"] = ("Partial proof, of the Go glue around the SM4 block function only: NewCipher (public and internal) returns an error exactly for keys that are not 16 bytes long and otherwise a 16-byte block cipher; "
+ "the block-batch entry points EncryptBlocks/DecryptBlocks panic exactly on short buffers or inexact overlap, call the assembly routine only with slices for which its length-dependent batch size (one batch, or two when src is exactly "
+ "two batches long - read off the assembly and assumed) stays inside both buffers, and write only dst[0..n] for that n (found and fixed D29: a one-batch dst was overrun). "
+ "Not decided: that the 32 rounds equal GB/T 32907 (S-box tables, rotations and the XOR network need bit-vector reasoning; the verifier's bit-vector mode is a skeleton), the key schedule, agreement of the AES-NI/AVX2/AVX/SSE/pure-Go tiers, "
+ "decryption inverting encryption - i.e. the cryptographic content of the property.",
+ "Trusted: encryptBlocksAsm (assumed contract), newCipher dispatch, alias.InexactOverlap.",
+ "DESIGN.md §0.2, §4 C02")
+
 NOT_APPLICABLE = {
  "C02": "Not reached by the contract technique in this build: the SM4 round function (S-box tables, 32-bit rotations, XOR network) needs the bit-vector mode of the verifier, which exists only as a skeleton; the AES-NI/AVX assembly tiers are outside any Go-level contract. The Go wrappers around the SM4 assembly that cipher modes use are covered under C03. No other technique was substituted.",
  "C04": "GCM/CCM: table-driven GHASH and the fused SM4-GCM assembly need bit-vector reasoning over carry-less multiplication that the arith-mode VC generator cannot express; CCM's Go glue was planned but not reached in this build.",
